@@ -307,7 +307,9 @@ def run_scene(sc, desc):
         objects.extend(bdict.values())
         constraints.extend(clist)
         mat = fd.Material(permittivity=sc["eps"], electric_conductivity=sc["sigma"]) if sc["sigma"] else fd.Material(permittivity=sc["eps"])
-        block = fd.UniformMaterialObject(name="blk", partial_real_shape=(2 * h, 2 * h, 2 * h), material=mat)
+        # block parity follows the axis parity: a centred even block on an odd axis is a placement TIE that binary64
+        # round-off decides differently for different origins (see notes/C38.md) - not what this property is about
+        block = fd.UniformMaterialObject(name="blk", partial_real_shape=tuple((2 + n % 2) * h for n in shape), material=mat)
         constraints.append(block.place_at_center(volume))
         objects.append(block)
         wc = fd.WaveCharacter(wavelength=12 * h)
